@@ -6,6 +6,7 @@ use crate::util::*;
 use scpi::error::Error;
 use scpi::parser::tokenizer::{Token, Tokenizer};
 use scpi_contrib::scpi1999::{NumericValue, NumericValueDefaults};
+use scpi::units::uom::si::{f32::{Frequency, Time}, frequency::hertz, time::second};
 
 fn go<'a, T>(tok: Token<'a>, ops: &str, parse: impl Fn(&str) -> T, show: impl Fn(&T) -> String) -> String
 where T: TryFrom<Token<'a>, Error = Error> + PartialOrd + NumericValueDefaults + Copy {
@@ -31,6 +32,9 @@ pub fn run(args: &[&str]) -> String {
         "i8" => int!(i8), "u8" => int!(u8), "i16" => int!(i16), "u16" => int!(u16), "i32" => int!(i32), "u32" => int!(u32), "i64" => int!(i64), "u64" => int!(u64),
         "f32" => go::<f32>(tok, ops, |s| f32::from_bits(u32::from_str_radix(s, 16).unwrap()), |v| format!("F{:08x}", v.to_bits())),
         "f64" => go::<f64>(tok, ops, |s| f64::from_bits(u64::from_str_radix(s, 16).unwrap()), |v| format!("F{:016x}", v.to_bits())),
+        // unit quantities (uom, f32 storage): bounds, default and result in the base unit
+        "qtime" => go::<Time>(tok, ops, |s| Time::new::<second>(f32::from_bits(u32::from_str_radix(s, 16).unwrap())), |v| format!("F{:08x}", v.get::<second>().to_bits())),
+        "qfreq" => go::<Frequency>(tok, ops, |s| Frequency::new::<hertz>(f32::from_bits(u32::from_str_radix(s, 16).unwrap())), |v| format!("F{:08x}", v.get::<hertz>().to_bits())),
         _ => panic!("bad type"),
     }
 }
